@@ -155,7 +155,14 @@ def compare_graphs(ctx, live, fresh, names, label):
 
 
 def compare_live_fresh(ctx, live, spec, env, label, graph=False):
-    fresh = M.build(spec, env)
+    try:
+        fresh = M.build(spec, env)
+    except ValueError:
+        raise
+    except Exception as e:  # noqa - the model reached by the edits cannot even be built from scratch
+        if type(e).__name__ in ("PathAbort", "EngineError"):
+            raise
+        raise ValueError(f"fresh build failed with {type(e).__name__}: {str(e)[:160]}")
     gt = gt_sets(spec)
     names = set(gt["patterns"] + gt["jobs"] + gt["servers"] + gt["storages"] + gt["networks"] + gt["steps"]
                 + gt["journeys"] + gt["devices"] + gt["countries"] + ["system"])
@@ -364,7 +371,8 @@ def plan(tier, seed):
         pairs = [(a, b) for a in singles for b in singles if a["obj"] != b["obj"]]
         rnd.shuffle(pairs)
         p += [("script", dict(skeleton="T1", script=[a, b])) for a, b in pairs[:60]]
-        p += [("script", dict(skeleton="T3", n=3, script=[e] + ([inv] if inv else []))) for e, inv in single_edits("T3")]
+        # (a replacement series of another length is refused by the model: the starts edits are written for n=2)
+        p += [("script", dict(skeleton="T3", n=3, script=[e] + ([inv] if inv else []))) for e, inv in single_edits("T3") if e["k"] != "starts"]
     # inductive invariant (same dependency graph as the fresh system) wherever no job is shared between usage patterns
     for item in p:
         if item[1]["skeleton"] in ("T1", "T4", "T5", "T7", "T9"):
